@@ -1883,7 +1883,12 @@ void automatic_search_text(mmd_engine * e, token * t, trie * ac) {
 
 
 /// Determine which nodes to descend into to search for abbreviations
-void automatic_search(mmd_engine * e, token * t, trie * ac) {
+static void automatic_search_at_depth(mmd_engine * e, token * t, trie * ac, unsigned short depth) {
+	// Avoid stack overflow in "pathologic" input -- same limit as the exporters
+	if (depth == kMaxExportRecursiveDepth) {
+		return;
+	}
+
 	while (t) {
 		switch (t->type) {
 			case TEXT_PLAIN:
@@ -1917,7 +1922,7 @@ void automatic_search(mmd_engine * e, token * t, trie * ac) {
 			case PAIR_UL:
 			case TABLE_CELL:
 			case TABLE_ROW:
-				automatic_search(e, t->child, ac);
+				automatic_search_at_depth(e, t->child, ac, depth + 1);
 				break;
 
 //			case PAIR_PAREN:
@@ -1927,6 +1932,11 @@ void automatic_search(mmd_engine * e, token * t, trie * ac) {
 
 		t = t->next;
 	}
+}
+
+
+void automatic_search(mmd_engine * e, token * t, trie * ac) {
+	automatic_search_at_depth(e, t, ac, 0);
 }
 
 
